@@ -146,7 +146,7 @@ def make_cases(ctx, fa, n, label="f"):
             pass
         first = 0
         interval = rnd.choice([1, 2, 7, 16, 64, 100, 1000, 16000, max(1, total), max(1, total - 1), total + 1, max(1, total // 2)])
-        level = rnd.choice([None, None, 1, 6, 9]) if codec in ("deflate",) else None
+        level = rnd.choice([None, None, 1, 6, 9, 0, -1]) if codec in ("deflate",) else None
         meta = rnd.choice([None, {}, {"k": "v"}, {"user.key": "värde €", "a": ""}, {"x" * 70: "y" * 300}, "shared", "shared"])
         if meta == "shared":
             meta = shared_meta          # the same dict object handed to one writer() call after another, as an application would
